@@ -1,33 +1,60 @@
 """X-layer family `bi`: the BUILT-IN FUNCTION MATRIX.
 
-src/builtins_registry.c of the tree under test is parsed at import time (name, arity, parameter types, return type,
-flags).  Every registered built-in is in exactly one of three classes:
+src/builtins_registry.c of the tree under test (common.REPO) is parsed at import time (name, arity, parameter types,
+return type, flags).  Every registered built-in is in exactly one of three classes:
 
-  * described in SPECS below  -> enumerated over the product of small boundary pools, one unit per
-                                 (built-in x argument-pool slice); the expected text comes from the plain Python
-                                 model next to the description (docs/STDLIB.md + docs/SPECIFICATION.md), or is None
-                                 for the argument tuples the documents leave open (engines compared with each other);
-  * listed in EXCLUDED        -> not enumerated, with the reason (I/O, time, environment, files, processes, opaque
-                                 handles, function-valued parameters, not accepted by the front end);
-  * neither (a built-in added to the registry later)  -> enumerated generically from its registry signature when it
-                                 is pure and all its parameters are int / float / bool / string (expected None),
-                                 otherwise named in UNCOVERED.
+  * described (SPECS / CUSTOM below) -> enumerated over the product of small boundary pools, one unit per
+        (built-in x way the arguments reach it x argument-pool slice).  The expected text comes from the plain Python
+        model next to the description (docs/STDLIB.md, docs/DYNAMIC_ARRAYS.md, docs/SPECIFICATION.md); argument tuples
+        the documents leave open (UNDEF) go to units of their own with expected None: the engines are compared with
+        each other; tuples that must abort or are C undefined behaviour (OMIT) are not generated;
+  * listed in EXCLUDED  -> not enumerated, with the reason;
+  * neither (a built-in added to the registry later) -> enumerated generically from its registry signature when it is
+        pure and all its parameters are int / float / bool / string (expected None), otherwise named in UNCOVERED.
 
-Floats are never printed (the properties say "floats compared, never printed": the VM prints 4.0 where the native
-program prints 4): a float result r is observed as (== r <exact literal>) for the exactly-rounded functions and as
-|r - literal| < eps for the transcendental ones.
+Sub-families (unit name prefixes):
+  bi_<name>[_<variant>][_let|_mut|_fn]_[u]<k>   the matrix proper; variants: i/f/b/s = argument type of a polymorphic
+                          built-in, wide = ints that are no character, big = values beyond 32 bits; let / mut / fn = the
+                          arguments are immutable locals / mutable locals / parameters of a wrapper function; u = result
+                          not documented
+  bi_range_*              for i in (range a b): iterations and sum, around 0, 2^31, 2^32 and the int64 ends
+  bi_array_push_* bi_array_pop_* bi_array_remove_at_* bi_array_set_* bi_string_from_bytes_*
+                          the built-ins that change their array argument ('set xs (array_push xs v)' and statement form)
+  bi_law_*                built-ins fed with the results of built-ins (round trips, split/join, signedness of int results)
+  bi_loop_*               a loop variable as the argument, results accumulated over the loop
+  bi_churn_*              thousands of strings / array elements made by built-ins inside loops
 
-EXCLUDED (and why) - see the table EXCLUDED below; in short
+Floats are never printed (the properties say "floats compared, never printed"; the VM prints 4.0 where the compiled
+program prints 4): a float result r is observed as (cast_int (* r 1000.0)) - three decimals, independent of long float
+literals - and as (== r <literal>) for the exactly rounded functions / |r - literal| < eps for the transcendental ones.
+
+EXCLUDED built-ins
   print println                                   the observation channel itself (every unit uses println)
-  file_* dir_* tmp_dir mktemp* getcwd chdir fs_walkdir path_isfile path_isdir system exit getenv setenv
-  process_run                                     flagged BUILTIN_IO: files, directories, environment, processes
+  file_read file_read_bytes file_write file_append file_remove file_rename file_exists file_size tmp_dir mktemp
+  mktemp_dir dir_create dir_remove dir_list dir_exists getcwd chdir fs_walkdir path_isfile path_isdir system exit
+  getenv setenv process_run                       flagged BUILTIN_IO: files, directories, environment, processes
   null_opaque hashmap_* map_* result_*            take / return opaque handles, HashMap or Result values
-  filter map reduce                               take function values (element type x callee signature is the
-                                                  data family's matter, known finding c04-higher-order-signature)
+  filter map reduce                               function-valued parameter (known finding c04-higher-order-signature)
+  bstr_utf8_length bstr_utf8_char_at bstr_validate_utf8
+                                                  the parameter is a bstring handle made by bstr_new (not in the registry);
+                                                  with a plain string the call is accepted and runs on the VM, but the C
+                                                  program does not compile and the evaluator has no such function
   array_concat float_to_string bool_to_string string_to_float is_space asin acos atan log log2 log10 exp fmod
   path_join path_basename path_dirname path_normalize
-                                                  registered, but the front end (type checker) does not know them:
-                                                  no accepted program can call them without an extern declaration
+                                                  registered, but the type checker does not know them ("I cannot find a
+                                                  function named"): no accepted program calls them without extern
+
+Argument tuples left out or only compared between engines (and why)
+  abs INT64_MIN                                   -INT64_MIN: C undefined behaviour natively (OMIT)
+  sqrt / pow / tan / atan2 outside the real domain, overflowing results: not described (OMIT)
+  round x.5 where "half away from zero" (C round) and "half to even" (remark in STDLIB.md) differ: UNDEF
+  cast_int of a float beyond int64, cast_string / to_string of a float whose text is not the same under %g and
+  shortest-round-trip printing (integral values: 4 vs 4.0): OMIT;  cast_* of a string: known finding c04-native-cast-of-string
+  string_to_int of " 42", "+5", "12abc", "3.9", overflowing digits ...: strtoll-like or all-or-nothing is not said: UNDEF
+  str_substring with a negative length: UNDEF;  char_at / at / array_get / array_set / array_remove_at out of range and
+  array_pop of an empty array: must abort - another property (OMIT);  array_slice reaching outside the array: the
+  clamping is not documented (OMIT);  is_whitespace 11 / 12 (VT, FF): C isspace says yes, the documented list no: UNDEF
+  string_from_char outside 1..127 (and 13: a bare CR in captured text): "ASCII value" only
 """
 import decimal
 import math
@@ -173,7 +200,7 @@ def str_arrays(tier):
 
 
 # ------------------------------------------------------------------------------------------ descriptions
-SPECS = []      # (builtin, variant tag, return kind, generator(tier) -> iterable of argument tuples, model(*args), what)
+SPECS = []      # one entry per (built-in, argument-type variant): see spec()
 
 
 def spec(name, ret, gen, model, variant="", eps=None, engines=None, note=""):
@@ -223,11 +250,10 @@ def _guard(fn):
 
 
 def m_round(x):
-    if abs(x - math.trunc(x)) == 0.5 and (math.floor(x) % 2 == 0) != (x < 0):
-        # halves where "half away from zero" (C round) and "half to even" (the remark in STDLIB.md) differ
-        if math.copysign(math.floor(abs(x) + 0.5), x) != float(round(x)):
-            return UNDEF
-    return math.copysign(math.floor(abs(x) + 0.5), x)
+    away = math.copysign(math.floor(abs(x) + 0.5), x)        # C round(): halves away from zero
+    if abs(x - math.trunc(x)) == 0.5 and away != float(round(x)):
+        return UNDEF         # STDLIB.md also says "rounds half to even": 2.5 and -2.5 are open, 3.5 and 1.5 are not
+    return away
 
 
 def small_ints_as_float_args(tier):
@@ -388,10 +414,6 @@ def charat_args(tier):
 spec("char_at", "I", charat_args, lambda s, i: ord(s[i]))
 
 
-def ascii_codes(tier):
-    return list(range(1, 128))
-
-
 def m_string_from_char(c):
     return chr(c)
 
@@ -460,7 +482,7 @@ def at_args(tier):
 
 
 spec("at", "E", at_args, lambda a, i: a.items[i])
-spec("array_get", "E", at_args, lambda a, i: a.items[i], engines=("vm", "native"), note="the evaluator has no array_get ('Undefined function'): vm / native only")
+spec("array_get", "E", at_args, lambda a, i: a.items[i], note="registered synonym of at")
 
 
 def slice_args(tier):
@@ -530,8 +552,8 @@ def _observe_lines(k, call, ret, val, eps):
     if ret == "F":
         st = "    let r%d: float = %s\n" % (k, call)
         if not modelled:
-            # no value to compare with: the engines are compared on the position of r on a coarse grid
-            st += "    (println (< r%d 0.0))\n    (println (< r%d 1.0))\n    (println (== r%d r%d))\n" % (k, k, k, k)
+            # no value to compare with: the engines are compared on three decimals of r
+            st += "    (println (cast_int (* r%d 1000.0)))\n    (println (== r%d r%d))\n" % (k, k, k)
             return st, None
         exp = ""
         m = val * 1000.0
